@@ -205,7 +205,11 @@ def gen_network(rng) -> dict:  # noqa: ANN001
                 init[c] = rng.randrange(labels[c])
             elif r < 0.6:
                 init[c] = sorted(rng.sample(range(labels[c]), rng.randint(0, labels[c])))
-    return {"spec": {"components": comps}, "labels": {c: n for c, n in labels.items() if n > 0}, "maps": maps, "initial_labels": init,
+    # compounds without label positions are either left out of the table of labelled compounds or listed there with 0
+    listed_with_zero = rng.random() < 0.5
+    if listed_with_zero and any(n == 0 for n in labels.values()):
+        feats.add("compound_listed_with_0_positions")
+    return {"spec": {"components": comps}, "labels": {c: n for c, n in labels.items() if n > 0 or listed_with_zero}, "maps": maps, "initial_labels": init,
             "features": sorted(feats), "names": names}
 
 
